@@ -1,5 +1,11 @@
 package interp
 
+import (
+	"go/types"
+
+	"gosym/sym"
+)
+
 // Intrinsics for functions of the repository itself and of its direct
 // environment (logging, clocks, ids). Each one is an explicit stub.
 
@@ -52,11 +58,67 @@ func init() {
 			panic(exitPanic(70))
 		},
 		"reflect.TypeOf": func(fr *frame, args []value) value { return iface{} },
+		"time.runtimeNano": func(fr *frame, args []value) value { return int64(1) },
+		"time.now": func(fr *frame, args []value) value { return tuple{int64(0), int32(0), int64(0)} },
 		"time.Now": func(fr *frame, args []value) value {
 			fr.i.x.stub("time.Now (environment: fixed zero instant; must not reach consensus outputs)")
 			return zero(fr.fn.Signature.Results().At(0).Type())
 		},
 	} {
 		externals[k] = v
+	}
+}
+
+// ---- Tendermint BlockStore (block header times) ----
+
+type blockTimes struct{ unix map[int64]value }
+
+func init() {
+	const tmstore = "github.com/tendermint/tendermint/store"
+	externals["github.com/Oneledger/protocol/zz_sv.BlockStore"] = func(fr *frame, args []value) value {
+		fr.i.x.stub("tendermint BlockStore.LoadBlockMeta (header times supplied by the harness)")
+		hs, _ := args[0].([]value)
+		us, _ := args[1].([]value)
+		bt := &blockTimes{unix: map[int64]value{}}
+		for k := range hs {
+			bt.unix[asInt64(hs[k])] = us[k]
+		}
+		pkg := fr.i.prog.ImportedPackage(tmstore)
+		c := zero(pkg.Type("BlockStore").Type())
+		p := &c
+		fr.i.side[p] = bt
+		return p
+	}
+	externals["(*"+tmstore+".BlockStore).LoadBlockMeta"] = func(fr *frame, args []value) value {
+		p, _ := args[0].(*value)
+		if p == nil {
+			panic(nilDeref())
+		}
+		bt, ok := fr.i.side[p].(*blockTimes)
+		if !ok {
+			panic(abortPath{"BlockStore not created by sv.BlockStore"})
+		}
+		h := fr.i.concreteInt64(args[1], "LoadBlockMeta height")
+		u, ok := bt.unix[h]
+		if !ok {
+			return (*value)(nil)
+		}
+		mt := fr.fn.Signature.Results().At(0).Type() // *types.BlockMeta
+		meta := zero(mustDeref(mt)).(structure)
+		// Header is field 2; Header.Time is field 3 of Header (Version, ChainID, Height, Time, ...)
+		hdr := meta[2].(structure)
+		hst := mustDeref(mt).Underlying().(*types.Struct).Field(2).Type().Underlying().(*types.Struct)
+		for k := 0; k < hst.NumFields(); k++ {
+			switch hst.Field(k).Name() {
+			case "Height":
+				hdr[k] = h
+			case "Time":
+				// time.Time{wall: 0, ext: unix + 62135596800 (seconds since year 1), loc: nil (UTC)}
+				ut, _, _ := intTerm(u)
+				hdr[k] = structure{uint64(0), mkInt(sym.Add(ut, sym.Int64(62135596800)), types.Int64), (*value)(nil)}
+			}
+		}
+		var cell value = meta
+		return &cell
 	}
 }
